@@ -92,6 +92,7 @@ def run(R):
             "cancel() without an error completes the batch with a BatchCancelledError",
             "cancel() without an error can complete the batch with error None: the batch then counts as flushed successfully and its items get the 'not set' AssertionError",
             ccfg.fmt_path(p) if p else None)
+    common.exception_slot_types(R, "C11.CANCEL-NOOP", ("futures.FutureBase", "batching.BatchBase"))
     # ---- SWITCH-FIRST
     comp = bb.methods.get("_compute")
     R.need(comp is not None, "anchor vanished: BatchBase._compute")
@@ -200,7 +201,11 @@ def run(R):
     tcfg = cfg_of(ts)
     writes = [n for n in tcfg.nodes if n.kind == "stmt" and isinstance(n.ast, ast.Assign) and isinstance(n.ast.targets[0], ast.Subscript)
               and q.src(n.ast.targets[0].value) == "_debug_batch_state.batches"]
-    R.need(writes, "idiom: DebugBatch._try_switch_active_batch no longer writes _debug_batch_state.batches[...]")
+    if not writes:
+        R.violation("C11.DEBUG-SWITCH", ts.qualname + ":always", R.site(ts),
+                    "DebugBatch._try_switch_active_batch never installs a fresh batch in the thread-local slot: the batch being flushed stays the active one, "
+                    "so an item created while it is being flushed joins it instead of a new pending batch")
+        writes = []
 
     def holds_self(nd):
         if nd.kind != "test":
@@ -209,7 +214,7 @@ def run(R):
         if k == "is" and "self" in s and any("_debug_batch_state.batches" in x for x in s):
             return "T" if pos else "F"
         return None
-    p = kit.path_avoiding_guard(tcfg, writes, holds_self, N)
+    p = kit.path_avoiding_guard(tcfg, writes, holds_self, N) if writes else None
     R.check(p is None, "C11.DEBUG-SWITCH", ts.qualname, R.site(ts),
             "the thread-local slot is replaced only when it still holds this batch",
             "the slot can be replaced although it holds another (newer) batch: that batch and its items are lost", tcfg.fmt_path(p) if p else None)
